@@ -122,14 +122,14 @@ func implies(a, b Term) Term {
 	return app("=>", SBool, a, b)
 }
 
-func eq(a, b Term) Term        { return app("=", SBool, a, b) }
-func ite(c, a, b Term) Term    { r := app("ite", a.Sort, c, a, b); r.T = a.T; return r }
-func lt(a, b Term) Term        { return app("<", SBool, a, b) }
-func le(a, b Term) Term        { return app("<=", SBool, a, b) }
-func add(a, b Term) Term       { return app("+", SInt, a, b) }
-func sub(a, b Term) Term       { return app("-", SInt, a, b) }
+func eq(a, b Term) Term            { return app("=", SBool, a, b) }
+func ite(c, a, b Term) Term        { r := app("ite", a.Sort, c, a, b); r.T = a.T; return r }
+func lt(a, b Term) Term            { return app("<", SBool, a, b) }
+func le(a, b Term) Term            { return app("<=", SBool, a, b) }
+func add(a, b Term) Term           { return app("+", SInt, a, b) }
+func sub(a, b Term) Term           { return app("-", SInt, a, b) }
 func sel(a, i Term, s string) Term { return app("select", s, a, i) }
-func store(a, i, v Term) Term  { return app("store", a.Sort, a, i, v) }
+func store(a, i, v Term) Term      { return app("store", a.Sort, a, i, v) }
 
 func arraySort(k, v string) string { return "(Array " + k + " " + v + ")" }
 
